@@ -59,6 +59,10 @@ chk("C16", "fault_enumeration",
     "The real search.Ingestor (replica fail-over, special error codes, QPR merge, pagination, per-source fetch streams merged by position) runs over scripted fake stores that answer from the reference model; per-host behaviours: search ok/error/wants-old-data/too-many-fractions, fetch ok/error/break-after-k/missing/extra/reordered. Exhaustive over the search alphabet for topologies up to 2x2 (+1x1 long-term), seeded beyond and for fetch faults. The oracle is computed from the recorded responses: error, or IDs = page of the de-duplicated merge over the answering shards, partial flag iff a shard did not answer, long-term stores consulted on wants-old-data, document i = document of ID i or empty - and not empty when the delivering store's stream was flawless.",
     "Fake stores answer instantly; a panic caught at the call boundary counts as an error (the proxy has a recovery interceptor) and is tallied.", "runtime oracle over recorded responses under enumerated per-call faults", "DESIGN.md 2/C16")
 
+chk("C01", "fault_enumeration",
+    "Seeded crash/restart histories of 3-5 rounds against the real store in child processes: each round restarts the store on the same directory, verifies the whole shadow state (every acknowledged document fetched byte-identical, listed by _all_, found by its tokens; every unacknowledged bulk wholly present or wholly absent; no foreign ID; the store came up), ingests more bulks and crashes at the k-th hit of a write-path hook (before/after the docs write, after its fsync - the orphan docs block -, before/after the meta write, after its fsync before the ack) or exits cleanly; after every crash a power-loss variant truncates each file to a seeded length between its fsync-covered length and its size. An offline checker over the hook event log additionally demands docs write < docs fsync < meta write < meta fsync < ack for every acknowledged bulk.",
+    "Crash = os.Exit in a hook; power loss = truncation of unsynced tails derived from fsync hook events; directory-entry durability not modelled; hooks sit where MANIFEST.hooks says.", "crash-point and torn-tail fault injection with a shadow-state oracle + offline ordering checker over the hook event log", "DESIGN.md 2/C01")
+
 def main():
     claimed = sorted(CHECKS)
     na = [{"property_id": p, "reason": "check not built yet in this session (planned; see DESIGN.md section 2)"} for p in ALL if p not in CHECKS]
